@@ -845,6 +845,10 @@ Definition from_dict_gm (j : jv) : result ginst :=
               | Some (JList c) => Ok c | Some _ => Err Unmodelled | None => Err KeyErr end ;;
       us <- match lookup "univariates" d with
             | Some (JList l) => all_ok (map from_dict_u l)
+            (* `for parameters in copula_dict['univariates']`: a str / dict / set IS iterable (its characters / keys go to
+               Univariate.from_dict: AttributeError, or nothing at all when it is empty) - outside the model; the numbers, None
+               and booleans are not (found by the gmctl bridge: before, every non-list was TypeErr) *)
+            | Some (JStr _) | Some (JDict _) | Some (JSet _) => Err Unmodelled
             | Some _ => Err TypeErr | None => Err KeyErr end ;;
       corr <- match lookup "correlation" d with
               | Some c => jlist_rows c | None => Err KeyErr end ;;
@@ -1235,14 +1239,16 @@ Section Oracles.
   Variable o_corr : nat -> list obs -> list (list Q).
      (* correlation of norm.ppf(clip(cdf_i(X_i))) given the table id and each column's cdf behaviour *)
 
-  (* _fit_columns: get_instance is OUTSIDE the try, the fit inside (fallback: GaussianUnivariate) *)
+  (* _fit_columns: get_instance is OUTSIDE the try, the fit inside (fallback: GaussianUnivariate).  The global generator is
+     returned on the error path as well: the columns fitted before the one whose get_instance raises have consumed it
+     (found by the gmctl bridge: before, the error path gave back the generator of the call) *)
   Fixpoint fit_columns (d : dist) (cols : list (jv * data)) (g : grng)
-    : result (list jv * list uobj * grng) :=
+    : grng * result (list jv * list uobj) :=
     match cols with
-    | [] => Ok ([], [], g)
+    | [] => (g, Ok ([], []))
     | (name, col) :: rest =>
         match get_instance_u (dist_for d name) [] with
-        | Err e => Err e
+        | Err e => (g, Err e)
         | Ok o =>
             let '(o1, g1, e) := fit_u o col g in
             let '(o2, g2) :=
@@ -1255,8 +1261,8 @@ Section Oracles.
                   end
               end in
             match fit_columns d rest g2 with
-            | Err e' => Err e'
-            | Ok (ns, os, g3) => Ok (name :: ns, o2 :: os, g3)
+            | (g3, Err e') => (g3, Err e')
+            | (g3, Ok (ns, os)) => (g3, Ok (name :: ns, o2 :: os))
             end
         end
     end.
@@ -1268,8 +1274,8 @@ Section Oracles.
     else if t_has_nan T then (x, g, Some ValueErr)
     else
       match fit_columns (g_dist x) (t_cols T) g with
-      | Err e => (x, g, Some e)
-      | Ok (names, us, g1) =>
+      | (g1, Err e) => (x, g1, Some e)
+      | (g1, Ok (names, us)) =>
           let x1 := mkG (g_dist x) (g_rs x) (g_fitted x) (Some names) (Some us) (g_corr x) (g_stored x) in
           let cdfs := map (fun u => q_u u QCdf) us in
           match first_err cdfs with
